@@ -547,7 +547,7 @@ func init() {
 			forms: []string{"bin", "binomit"}, modes: []string{"merge", "fresh", "reuse"}, queryEvery: 5, maxOps: 100, extra: weightlessAdder}),
 		Execute:    ExecFleet,
 		NonTrivial: nonTrivialFleet(3),
-		Rule:       "seeded pipeline simulations of sketches with exact summary statistics through additions (incl. weight 0 and refused values), merges, copies, clears, re-weightings, unit changes and encode/decode hops, the statistics being compared with exact arithmetic after every event; " + distinctRule + "; non-trivial = at least 3 mutations",
+		Rule:       "seeded pipeline simulations of sketches with exact summary statistics through additions (incl. weight 0 and refused values), merges, copies, clears, re-weightings, unit changes and encode/decode hops, the statistics being compared with exact arithmetic after every event; refused merges between clearly different mappings; chains of 300-4000 steps of snapshot / one-value merge / wire hop plus Add on copies of the nodes; " + distinctRule + "; non-trivial = at least 3 mutations",
 		Real:       realFleetComponents, Stub: stubFleetComponents,
 		Assumptions: []string{"sum tolerance 32*2^-53*sum|v*w| (x4 after a unit change)", "quantile == clamp(plain answer) only in the exact weight regime; after a unit change only 'inside [min,max]' (DESIGN 4.7)", sampleAssumption},
 	})
@@ -564,7 +564,7 @@ func init() {
 			rule = "at every clear a freshly constructed twin is created and receives the same subsequent events; after every event the cleared, re-used object and the twin must answer every observer identically (the model is not consulted); decoding into cleared, re-used stores is compared with decoding into new ones"
 		case "C16":
 			ops["reweight"] = 14
-			rule = "every Reweight (dyadic factors 2^-8..2^8 inside the exactness budget, applied to states reached by any history) is bracketed by snapshots: every bin on both sides, the zero weight and the count must be exactly the factor times their previous value, no bin may appear or disappear, exact sum scales, exact extremes stay"
+			rule = "every Reweight (dyadic factors 2^-8..2^8 inside the exactness budget, applied to states reached by any history) is bracketed by snapshots: every bin on both sides, the zero weight and the count must be exactly the factor times their previous value, no bin may appear or disappear, exact sum scales, exact extremes stay; a shadow sketch built with the scaled weights then follows the re-weighted one through every later event and must answer identically; weights of 2^53 and more are bracketed on bins and zero weight"
 		}
 		gen, exec, nt := twoWorlds(GenFleet(&fleetProfile{prop: id, stores: allKinds, roles: []string{"sketch", "sketch", "exact"}, minNodes: 1, maxNodes: 3, shareMap: true,
 			weights: []string{"unit", "int", "frac"}, valueSigns: []string{"pos", "neg", "mixed", "zeros"},
